@@ -539,3 +539,25 @@ STRATEGIES = [
     {"kind": "bursty", "q": 0.15}, {"kind": "bursty", "q": 0.4},
     {"kind": "pct_fair", "period": 60}, {"kind": "pct_fair", "period": 250}, {"kind": "pct_fair", "period": 1000},
 ]
+
+
+def choice_shrink_candidates(choices: list[int]):
+    """Smaller schedules: an exhausted / zeroed choice stream means 'keep running the current task, take the first
+    ready task, smallest time step', so truncating or zeroing blocks removes pre-emptions."""
+    n = len(choices)
+    if n == 0:
+        return
+    seen = set()
+    for k in (n // 8, n // 4, n // 2, (3 * n) // 4, n - max(1, n // 10), n - 1):
+        if 0 <= k < n and k not in seen:
+            seen.add(k)
+            yield choices[:k]
+    width = max(1, n // 8)
+    while width >= 1:
+        for start in range(0, n, width):
+            blk = choices[start:start + width]
+            if any(blk):
+                yield choices[:start] + [0] * len(blk) + choices[start + width:]
+        if width == 1:
+            break
+        width //= 2
